@@ -9,7 +9,10 @@ RULE = ("force fields = 4 blocks (1-4 atoms) + every ordered subset of <=2 (quic
         "atom removal, [edges], [non-edges], [patterns], versions, override pairs, circular linktype) x every connected residue "
         "graph with n<=4 (5 thorough) nodes under all n!/|Aut| residue-id labellings x all resname assignments x tag / linktype "
         "placements; each input is pushed through MapToMolecule+ApplyLinks and compared exactly (interactions, parameters, meta, "
-        "edges, replaced attributes) with the brute-force reference. non-trivial = >=1 link match applied and >=1 candidate rejected")
+        "edges, replaced attributes) with the brute-force reference; plus 220 composite links (order x pairs of link-language features), "
+        "90 three-residue angle links over every admissible triple of order prefixes in every listing order, dangling .itp "
+        "interactions, and explicit by_atom_id links (every ordered atom pair / triple, alone and in pairs, after ordinary links). "
+        "non-trivial = >=1 link match applied and >=1 candidate rejected")
 ASSUMPTIONS = ["reference model pmc/ref_genparams.py is the literal reading of the property (induced residue match, vermouth's documented order table)",
                "replace only rewrites attributes no selector reads (otherwise match-order dependent by design)"]
 BUDGET = {"quick": 600, "thorough": 3000}
@@ -187,7 +190,66 @@ def _ord3_cases(tier):
             yield {"variant": {"links": [name], "names": ["A", "B"] if n == 3 else ["A"]}, "n": n, "tier": tier}
 
 
+# ------------------------------------------------------------------ explicit links (atoms given by number, [ molmeta ] by_atom_id)
+def _explicit_cases(tier):
+    for seq in (["A", "A"], ["A", "B"], ["C", "A"], ["A", "B", "A"]):
+        for pre in (["bb"], ["bb", "a_c"]):
+            yield dict(kind="explicit", seq=seq, pre=pre, tier=tier)
+
+
+def _check_explicit(case):
+    """every ordered atom pair as an explicit bond and every ordered triple (n<=5 atoms) as an explicit angle, alone and two
+    at a time in one link: the interaction is present with the link's parameters on exactly those atoms, replaces an
+    interaction listing the same atoms in the same order (explicit links come last), adds the edges between consecutive
+    atoms and leaves everything else as the reference build without the explicit link"""
+    viols, evals, keys = [], 0, []
+    seq, pre = case["seq"], case["pre"]
+    spec = gp_cases.make_spec({"links": pre, "blocks": "ABCD"})
+    ff_txt = _F.render_ff(spec)
+    n = len(seq)
+    rg = dict(n=n, edges=[[i, i + 1] for i in range(n - 1)], resids=[1 + i for i in range(n)], resnames=list(seq))
+    base = _R.build(spec, rg)
+    nat = len(base["atoms"])
+    base_inter = {(sec, at): params for (sec, at, ver), (params, meta, origin) in base["inter"].items()}
+    base_edges = {frozenset(e) for e in base["edges"] if len(e) == 2}
+    singles = [("bonds", (a, b)) for a in range(nat) for b in range(nat) if a != b]
+    if nat <= 5:
+        singles += [("angles", t) for t in _it.permutations(range(nat), 3)]
+    combos = [[x] for x in singles] + [[x, y] for x, y in zip(singles, singles[7:] + singles[:7])]
+    for combo in combos:
+        lines, want, edges = {}, dict(base_inter), set(base_edges)
+        for k, (sec, at) in enumerate(combo):
+            params = ("1", f"0.9{k}", f"77{k}") if sec == "bonds" else ("2", f"9{k}", f"66{k}")
+            lines.setdefault(sec, []).append(" ".join(str(x + 1) for x in at) + " " + " ".join(params))
+            want[(sec, at)] = params
+            edges |= {frozenset(p) for p in zip(at[:-1], at[1:])}
+        link = "[ link ]\n[ molmeta ]\nby_atom_id true\n" + "".join(f"[ {sec} ]\n" + "\n".join(ls) + "\n" for sec, ls in lines.items())
+        evals += 1
+        case1 = dict(kind="explicit1", seq=seq, pre=pre, combo=[[sec, list(at)] for sec, at in combo])
+        try:
+            mm, _ = _H.run_processors(_H.parse_ff([("ff", ff_txt), ("ff", link)]), _H.build_resgraph(rg))
+        except Exception as exc:  # noqa
+            viols.append(_crash(exc, case1, assertion="pipeline-accepts-valid-input", tags=["explicit-link"]))
+            continue
+        dg = _H.mol_digest(mm.molecule)
+        pos = {a["key"]: i for i, a in enumerate(dg["atoms"])}
+        got = sorted((sec, tuple(pos[x] for x in at), tuple(p)) for sec, lst in dg["inter"].items() for at, p, m in lst)
+        exp = sorted((sec, at, tuple(params)) for (sec, at), params in want.items())
+        if got != exp and len(viols) < 20:
+            lost = [x for x in exp if x not in got][:3]
+            extra = [x for x in got if x not in exp][:3]
+            viols.append(dict(assertion="explicit-link-applied-exactly", tags=["explicit-link"],
+                              message=f"sequence {seq} links {pre} explicit {combo}: missing {lost} unexpected {extra}", case=case1, detail={}))
+        gedges = {frozenset((pos[a], pos[b])) for a, b in dg["edges"]}
+        if gedges != edges and len(viols) < 20:
+            viols.append(dict(assertion="explicit-link-makes-its-edges", tags=["explicit-link"],
+                              message=f"sequence {seq} explicit {combo}: edges {sorted(map(sorted, gedges))} expected {sorted(map(sorted, edges))}", case=case1, detail={}))
+        keys.append(_json.dumps([seq, pre, [[sec, list(at)] for sec, at in combo]]))
+    return viols, evals, keys
+
+
 def cases(tier):          # noqa: F811
+    yield from _explicit_cases(tier)
     yield from _core_cases(tier)
     yield from _dangling_cases(tier)
     yield from _composite_cases(tier)
@@ -210,4 +272,11 @@ def run_case(case):       # noqa: F811
             return dict(evals=1, keys=[], violations=v, stats={})
         v, e, k = _check_dangling_graph(case)
         return dict(evals=e, keys=k, violations=v, stats={"inputs_dangling_graph": e}, sample=dict(case))
+    if kind in ("explicit", "explicit1"):
+        if kind == "explicit1":
+            v, e, k = _check_explicit(dict(kind="explicit", seq=case["seq"], pre=case["pre"], tier="quick"))
+            v = [x for x in v if x["case"]["combo"] == case["combo"]]
+            return dict(evals=1, keys=[], violations=v, stats={})
+        v, e, k = _check_explicit(case)
+        return dict(evals=e, keys=k, violations=v, stats={"inputs_explicit": e}, sample=dict(case))
     return _core_run(case)
